@@ -242,10 +242,11 @@ func traceFields(o opts) error {
 				listedOut = append([]string(nil), listed...)
 				// every declared name is present at the service, so construction does not have to wait;
 				// the limit is there for a store that asks for other names than it should
-				cxNew, cancelNew := context.WithTimeout(cx, 3*time.Second)
+				cxNew, cancelNew := context.WithTimeout(cx, 300*time.Millisecond)
+				tNew := time.Now()
 				s, err := setec.NewStore(cxNew, setec.StoreConfig{Client: svc, Secrets: listed, Structs: []setec.Struct{{Value: arg, Prefix: prefix}}, PollInterval: -1, Logf: func(string, ...any) {}})
 				cancelNew()
-				if err != nil && errors.Is(err, context.DeadlineExceeded) {
+				if err != nil && (errors.Is(err, context.DeadlineExceeded) || time.Since(tNew) >= 290*time.Millisecond) {
 					aerr = "xTIMEOUT"
 					if fs, e2 := setec.ParseFields(arg, prefix); e2 == nil {
 						namesOut = xlistT(fs.Secrets())
